@@ -1055,6 +1055,7 @@ func (fc *FnCtx) execRange(st *State, x *ast.RangeStmt) []Outcome {
 	}
 	idx0 := Int(0)
 	scope0 := map[string]Value{keyName: idx0}
+	fc.applyUsesScope(st, fmt.Sprintf("loop%d.entry", n), scope0)
 	fc.checkInvariants(st, ls, n, "establish", scope0, x.Pos())
 	targets := fc.assignedIn(x.Body)
 	head := st.Clone()
